@@ -28,8 +28,12 @@ def run(tier):
                 for l1 in ([1] if nk < 2 or tier == "quick" else [0, 1, 2]):
                     if nk == 0 and (k0, l0) != (0, 1):
                         continue
-                    vj.append(dict(vbase, harness="VerifC19TextRoundTrip", params={"nk": nk, "k0": k0, "len0": l0, "len1": l1}))
+                    vj.append(dict(vbase, harness="VerifC19TextRoundTrip", params={"nk": nk, "k0": k0, "len0": l0, "len1": l1, "word0": 0, "word1": 0, "word2": 0}))
+    for w in range(1, 8):
+        for k0 in ([0, 3] if tier == "quick" else range(6)):
+            vj.append(dict(vbase, harness="VerifC19TextRoundTrip", params={"nk": 1, "k0": k0, "len0": 1, "len1": 1, "word0": w, "word1": 0, "word2": 0}))
+            vj.append(dict(vbase, harness="VerifC19TextRoundTrip", params={"nk": 2, "k0": k0, "len0": 1, "len1": 1, "word0": 0, "word1": w, "word2": 0}))
     groups = [Group("attr", jobs), Group("versiontest", vj)]
-    return run_property("C19", tier, groups, required_covers=["strict chain", "equal pair", "plain assignment shares the attribute map", "set written"],
+    return run_property("C19", tier, groups, required_covers=["strict chain", "equal pair", "plain assignment shares the attribute map", "set written", "a value that spells an attribute key"],
                         assumptions=["sets are built through SetAttr on keys 0, 5, 10 with symbolic values and a symbolic flag mask"],
                         bounds={"keys": 3, "value_len": lens})
